@@ -59,6 +59,15 @@ def write_sites(facts, fnpath, _depth=0):
                     if isinstance(pr, dict) and 'f' in pr:
                         fld = pr['f']
                         break
+                if fld and l['l'] != 1 and l['p'] and l['p'][0] == '*':
+                    # a write through a borrow of a flattened sub-object (`let r = &mut self.received; r.count = 0;`, or an
+                    # inlined method of the sub-object): the field is `received.count`
+                    try:
+                        base = field_of_self(body, body.canon_local(l['l']))
+                    except Exception:
+                        base = None
+                    if base and base != fld and not fld.startswith(base + '.'):
+                        fld = base + '.' + fld
                 out.append((fld, 'assign', body.canon_rv(st['rv']), m['bb'], m['idx'], st['line'], st))
     return out
 
